@@ -639,6 +639,10 @@ pub fn mutate_bin(_lf: &Leaf, span: (usize, usize), m: &str, a: &str, bytes: &[u
 				"dec" => cur.wrapping_sub(1) & maxv,
 				"inc" => cur.wrapping_add(1) & maxv,
 				"max" => maxv,
+				// values around the end of the input
+				"rem" => (v.len() - (s + l)) as u64 & maxv,
+				"rem1" => ((v.len() - (s + l)) as u64 + 1) & maxv,
+				"tot" => (v.len() - s) as u64 & maxv,
 				_ if a.starts_with('v') => a[1..].parse::<u64>().ok()? & maxv,
 				_ => return None,
 			};
